@@ -233,6 +233,10 @@ func fileInfo(name string, part *multipart.Part) os.FileInfo {
 		}
 	}
 
+	if params["mtime"] == nil {
+		return &fi // no modification time was sent: leave it unset
+	}
+
 	var secs, nsecs int64
 	if v := params["mtime"]; v != nil {
 		secs, err = strconv.ParseInt(v[0], 10, 64)
